@@ -30,7 +30,7 @@ ASSUMPTIONS = [
     "the order in which the 254 left-over keys of all-keys mode are tried is implementation-defined: any left-over-key block of the first view that has one is accepted, file order within one key is required",
     "filler contains no ff ff ff (it would add end-of-stub candidates to XorEncoded detection)",
 ]
-REQUIRED_MONITORS = ["model.block", "model.novalue", "constructors.agree", "XorEncodedFile.read.position"]
+REQUIRED_MONITORS = ["model.block", "model.novalue", "constructors.agree", "repeat.other_keys", "XorEncodedFile.read.position"]
 
 HDR = b"\x00\x01\x00\x01\x00\x02\x00"
 DEFAULT_KEYS = [b"\x69", b"\x2e", b"\x00"]
@@ -147,6 +147,30 @@ def check_case(case, ctx):
         if len(sig) != 1:
             ctx.violation("constructors.agree", f"from_bytes/from_file/from_path disagree: {[(h, r[0]) for h, r in results.items()]}", case)
             return
+    if case.get("again"):
+        # extraction is a function of (payload, keys): a second call with the default keys must follow those keys
+        ctx.mon("repeat.other_keys")
+        exp2 = expected(views, None, False)
+        core.set_buffer_size(bs)
+        try:
+            try:
+                c2_ = extract("bytes", payload, None, False, beacon)
+                st2 = "ok"
+            except ValueError:
+                c2_, st2 = None, "ValueError"
+            except Exception as e:  # noqa: BLE001
+                ctx.violation("extract.exception", f"second extraction: {type(e).__name__}: {e}", case)
+                return
+        finally:
+            core.set_buffer_size(None)
+        if (exp2 is None) != (st2 == "ValueError"):
+            ctx.violation("repeat.other_keys", f"second extraction of the same payload with the default keys: {st2}, model expects {'nothing' if exp2 is None else exp2[1][0]}", case)
+            return
+        if exp2 is not None:
+            vname, p_, k_ = exp2[1][0]
+            if bytes(c2_.config_block) != P.rx1(vd[vname][p_ : p_ + 4096], k_[0]) or c2_.xorkey != k_:
+                ctx.violation("repeat.other_keys", f"second extraction with the default keys returned key {c2_.xorkey!r}, model expects key {k_.hex()} at {p_}", case)
+                return
     meta = case.get("meta", {})
     nt = exp is not None and (meta.get("near_boundary") or meta.get("decoys", 0) > 0 or meta.get("layout") != "raw")
     ctx.ok(fp=(payload, repr(keys), allk, bs), nontrivial=bool(nt),
@@ -241,7 +265,8 @@ def gen_case(rng, tier, force_key=None):
         hows = ["file"]
     elif r < 0.4:
         hows = ["path"]
-    return {"payload": payload, "keys": keys, "allk": allk, "bs": bs, "views": views, "hows": hows, "meta": meta}
+    return {"payload": payload, "keys": keys, "allk": allk, "bs": bs, "views": views, "hows": hows, "meta": meta,
+            "again": keys is not None and rng.random() < 0.3}
 
 
 def _decoded_trailing(enc, off, plen):
